@@ -70,6 +70,8 @@ type Engine struct {
 	onReturn  func(st *State, fr *Frame, results []Val)
 	inlineCap int
 	trivialAll []trivRec
+	unfolding map[*ssa.Function]bool
+	ghostRec  map[*ssa.Function]bool
 }
 
 type closure struct {
@@ -86,7 +88,7 @@ func NewEngine(w *World) *Engine {
 	return &Engine{W: w, oblSeen: map[string]bool{}, Trivial: map[string]int{}, Inlined: map[string]int{},
 		Havocked: map[string]int{}, UsedSpecs: map[string]int{}, AssumedDep: map[string]int{},
 		closures: map[int64]*closure{}, loops: map[*ssa.Function]*loopInfo{}, modsets: map[*ssa.Function]map[string]bool{},
-		MaxPaths: 20000, MaxSteps: 400000, inlineCap: 400}
+		MaxPaths: 20000, MaxSteps: 400000, inlineCap: 400, unfolding: map[*ssa.Function]bool{}, ghostRec: map[*ssa.Function]bool{}}
 }
 
 func (e *Engine) pos(p token.Pos) string {
@@ -313,11 +315,17 @@ func (e *Engine) load(st *State, l *Loc, t types.Type) Val {
 		return st.normVal(c[l.Off : l.Off+n])
 	}
 	v := st.normVal(st.heap.read(l, t))
-	for i, lf := range leavesOf(t) {
+	ls := leavesOf(t)
+	for i, lf := range ls {
 		if v[i].Op == "select" && !v[i].hasBV {
 			for _, f := range leafAssume(v[i], lf) {
 				e.fact(st, f)
 			}
+		}
+	}
+	for i := 0; i+1 < len(ls); i++ {
+		if ls[i].Kind == LTag && ls[i+1].Kind == LData && v[i].Op == "select" && !v[i].hasBV {
+			e.fact(st, Implies(Eq(v[i], IntC(0)), Eq(v[i+1], IntC(0))))
 		}
 	}
 	return v
